@@ -75,7 +75,11 @@ def build_dag(n, edges, names=NAMES, cls=None, order=None):
         nodes = [nodes[i] for i in order]
     for x in nodes:
         g.add_node(x)
-    for i, j in edges:
+    edges = list(edges)
+    for k, (i, j) in enumerate(edges):
+        if k == len(edges) - 1 and len(edges) >= 2:
+            # interactions BEFORE the last edge goes in: a later successful mutation must still reset every cache
+            stress(g, ('dag-pre', n, tuple(edges)))
         g.add_edge(names[i], names[j])
     stress(g, ('dag', n, tuple(edges)))
     return g
@@ -88,7 +92,10 @@ def build_mixed(nodes, typed_edges, cls=None, validate=True):
     g = (cls or CausalGraph)()
     for x in nodes:
         g.add_node(x)
-    for s, d, t in typed_edges:
+    typed_edges = list(typed_edges)
+    for k, (s, d, t) in enumerate(typed_edges):
+        if validate and k == len(typed_edges) - 1 and len(typed_edges) >= 2:
+            stress(g, ('mixed-pre', tuple(nodes), tuple(typed_edges)))
         g.add_edge(s, d, edge_type=EdgeType(t), validate=validate)
     if validate:
         stress(g, ('mixed', tuple(nodes), tuple(typed_edges)))
@@ -188,7 +195,39 @@ def stress(g, key):
                 g.get_edge(a, b).meta.update(meta)
         except Exception:  # noqa: BLE001
             done.append('stress-raised')
+    if h // 13 % 2:
+        done += export_abuse(g)
     return done
+
+
+def export_abuse(g):
+    """take every export the graph hands out - from COLD caches, i.e. right after a mutation - and mutate the returned
+    object; exports are snapshots (property C06), so none of this may change what the graph answers afterwards"""
+    done = []
+    for name, f in (('nx', lambda: _abuse_nx(g.to_networkx())), ('adj', lambda: _abuse_arr(g.adjacency_matrix)),
+                    ('numpy', lambda: _abuse_arr(g.to_numpy()[0])), ('names', lambda: g.get_node_names().clear()),
+                    ('nodes', lambda: g.get_nodes().clear()), ('edges', lambda: g.get_edges().clear()),
+                    ('skadj', lambda: _abuse_arr(g.skeleton.adjacency_matrix)),
+                    ('dict', lambda: [d.clear() for d in (lambda x: (x['nodes'], x['edges']))(g.to_dict())]),
+                    ('vars', lambda: g.variables.clear() if hasattr(g, 'variables') and g.variables is not None else None)):
+        try:
+            f()
+            done.append('abuse:' + name)
+        except Exception:  # noqa: BLE001 - the export does not apply to this graph (mixed edge types)
+            pass
+    return done
+
+
+def _abuse_nx(n):
+    nodes = list(n.nodes)
+    n.add_edge('__ghost_a', '__ghost_b')
+    if nodes:
+        n.remove_node(nodes[0])
+
+
+def _abuse_arr(a):
+    if a.size:
+        a[:] = 1 - a
 
 
 def node_forms(g, name):
@@ -242,3 +281,34 @@ def nodeform_agree(g, names, fns, key=None):
                              f'(nodes {a!r}, {b!r})')
                 break
     return fails[:2]
+
+
+def query_noise(g, key):
+    """read-only queries in a deterministic pattern (existence checks on absent pairs, per-node edge queries on isolated
+    nodes, neighbours, inputs/outputs, cached readers): none of them may change what the graph is or answers"""
+    import hashlib
+    h = int(hashlib.sha1(repr(key).encode()).hexdigest(), 16)
+    if h % 3 == 0:
+        return
+    names = g.get_node_names() + ['__absent']
+    for a in names:
+        for f in (lambda: g.get_edges(source=a), lambda: g.get_edges(destination=a), lambda: g.get_neighbors(a),
+                  lambda: g.get_parents(a), lambda: g.get_children(a), lambda: g.node_exists(a)):
+            try:
+                f()
+            except Exception:  # noqa: BLE001
+                pass
+        for b in names:
+            for f in (lambda: g.edge_exists(a, b), lambda: g.get_edges(a, b), lambda: g.skeleton.edge_exists(a, b)):
+                try:
+                    f()
+                except Exception:  # noqa: BLE001
+                    pass
+    for f in (g.get_inputs, g.get_outputs, g.is_dag, g.to_networkx, lambda: g.adjacency_matrix, lambda: g.identifier,
+              g.to_dict, lambda: hash(g), lambda: repr(g), g.get_edge_pairs,
+              lambda: g.get_nodes_at_lag(-9) if hasattr(g, 'get_nodes_at_lag') else None,
+              lambda: g.get_nodes_for_variable_name('__absent') if hasattr(g, 'get_nodes_for_variable_name') else None):
+        try:
+            f()
+        except Exception:  # noqa: BLE001
+            pass
